@@ -64,7 +64,7 @@ Proof.
   apply (existsb_impl (hits c is_writedone)).
   - intros z Hh. destruct z; simpl in Hh; try discriminate.
     apply andb_true_iff in Hh as [E Hk]. apply Nat.eqb_eq in E. subst.
-    destruct k; try discriminate. apply is_conn_refl.
+    destruct k; try discriminate; simpl; rewrite ?Nat.eqb_refl; simpl; auto using orb_true_r.
   - apply (must_occur serving is_writedone c) with (s := m) (s' := s') (cn := mkConn p' (late cn)); auto.
     + intros cl lk p k p'0 H HP He. cstep_cases H; simpl in *; auto; discriminate.
     + simpl. destruct (ph cn); simpl in Hc; try discriminate; inversion Hc; reflexivity.
